@@ -25,6 +25,7 @@ struct Edit {
     text: String,
     seq: usize,
     splice: bool, // true = contract splice (add-only), false = rewrite rule
+    prio: i32,    // ordering among insertions at the same offset: wrappers open first (-1) and close last (+1)
 }
 
 struct Ctx<'a> {
@@ -37,11 +38,15 @@ struct Ctx<'a> {
 impl<'a> Ctx<'a> {
     fn ins(&mut self, pos: usize, text: &str, splice: bool) {
         self.seq += 1;
-        self.edits.push(Edit { start: pos, end: pos, text: text.to_string(), seq: self.seq, splice });
+        self.edits.push(Edit { start: pos, end: pos, text: text.to_string(), seq: self.seq, splice, prio: 0 });
+    }
+    fn ins_prio(&mut self, pos: usize, text: &str, splice: bool, prio: i32) {
+        self.seq += 1;
+        self.edits.push(Edit { start: pos, end: pos, text: text.to_string(), seq: self.seq, splice, prio });
     }
     fn rep(&mut self, start: usize, end: usize, text: &str) {
         self.seq += 1;
-        self.edits.push(Edit { start, end, text: text.to_string(), seq: self.seq, splice: false });
+        self.edits.push(Edit { start, end, text: text.to_string(), seq: self.seq, splice: false, prio: 0 });
     }
     fn count(&mut self, rule: &str) {
         *self.rules.entry(rule.to_string()).or_insert(0) += 1;
@@ -532,6 +537,13 @@ impl<'ast> Visit<'ast> for Collect {
             self.stmts.push((start, end, tail));
         }
         syn::visit::visit_block(self, b);
+    }
+    fn visit_arm(&mut self, a: &'ast syn::Arm) {
+        if !matches!(*a.body, syn::Expr::Block(_)) {
+            let (s, e) = br(a.body.span());
+            self.stmts.push((s, e, true));
+        }
+        syn::visit::visit_arm(self, a);
     }
     fn visit_expr_closure(&mut self, c: &'ast syn::ExprClosure) {
         let params = c
@@ -1069,9 +1081,13 @@ fn finish(
                 "before" => cx.ins(pick.0, &format!("{}\n", code.trim_end()), true),
                 "after" => {
                     if pick.2 {
-                        return Err(format!("anchor `{}`: cannot splice after a tail expression", text));
+                        // R12: name the tail expression so that ghost code can follow it:  E  ->  { let vx_tail = E; <ghost> vx_tail }
+                        cx.ins_prio(pick.0, "{ let vx_tail = ", false, -1);
+                        cx.ins_prio(pick.1, &format!(";\n{}\nvx_tail }}", code.trim_end()), false, 1);
+                        cx.count("R12(tail expression E -> { let vx_tail = E; <ghost code> vx_tail })");
+                    } else {
+                        cx.ins(pick.1, &format!("\n{}", code.trim_end()), true)
                     }
-                    cx.ins(pick.1, &format!("\n{}", code.trim_end()), true)
                 }
                 _ => return Err("anchor where".into()),
             }
@@ -1117,19 +1133,19 @@ fn finish(
                 }
                 cx.ins(c.or2_end, &format!(" -> ({}) {} ", ret, spec.trim()), true);
                 if !c.body_is_block || !destructure.is_empty() {
-                    cx.ins(c.body_start, &format!("{{ {}", destructure), destructure.is_empty());
-                    cx.ins(c.body_end, " }", destructure.is_empty());
+                    cx.ins_prio(c.body_start, &format!("{{ {}", destructure), destructure.is_empty(), -1);
+                    cx.ins_prio(c.body_end, " }", destructure.is_empty(), 1);
                 }
             } else if !destructure.is_empty() {
-                cx.ins(c.body_start, &format!("{{ {}", destructure), false);
-                cx.ins(c.body_end, " }", false);
+                cx.ins_prio(c.body_start, &format!("{{ {}", destructure), false, -1);
+                cx.ins_prio(c.body_end, " }", false, 1);
             }
         }
     }
 
     // ---- apply edits
     let mut edits = cx.edits.clone();
-    edits.sort_by(|a, b| (a.start, (a.end > a.start) as u8, a.seq).cmp(&(b.start, (b.end > b.start) as u8, b.seq)));
+    edits.sort_by(|a, b| (a.start, (a.end > a.start) as u8, a.prio, a.seq).cmp(&(b.start, (b.end > b.start) as u8, b.prio, b.seq)));
     // overlap check between replacements
     let mut last_end = region_start;
     for e in &edits {
